@@ -232,6 +232,9 @@ pub fn run(ctx: &Ctx) -> CheckResult {
         spaces.push(Space { cfg: Cfg::p2(Kind::SlowStoch, n, 2), alphabet: s_ops(&S_HUGE), depth: d - 3, label: "S_huge" });
         spaces.push(Space { cfg: Cfg::p2(Kind::SlowStoch, n, 2), alphabet: s_ops(&S_ULP), depth: d - 2, label: "S_ulp" });
         spaces.push(Space { cfg: Cfg::p1(Kind::FastStoch, n), alphabet: with_reset(grid.clone()), depth: db, label: "B_grid+reset" });
+        // the close-reading indicators fed bars (gaps: the close moves further than the bar's own range)
+        spaces.push(Space { cfg: Cfg::p1(Kind::Er, n), alphabet: with_reset(grid.clone()), depth: db, label: "B_grid+reset" });
+        spaces.push(Space { cfg: Cfg::p1(Kind::Rsi, n), alphabet: with_reset(grid.clone()), depth: db - 1, label: "B_grid+reset" });
         spaces.push(Space { cfg: Cfg::p1(Kind::Mfi, n), alphabet: vol.clone(), depth: dv, label: "B_vol" });
         if n <= 3 {
             // deeper, with resets, over the 5-bar MFI alphabet (equal typical prices between different bars)
@@ -309,6 +312,8 @@ pub fn run(ctx: &Ctx) -> CheckResult {
             tw.push((Cfg::p1(Kind::FastStoch, n), true));
             tw.push((Cfg::p2(Kind::SlowStoch, n, 3), true));
             tw.push((Cfg::p1(Kind::Mfi, n), true));
+            tw.push((Cfg::p1(Kind::Er, n), true));
+            tw.push((Cfg::p1(Kind::Rsi, n), true));
         }
         let len = if th { 2500 } else { 700 };
         let outs = par_run(ctx, &tw, |_, (cfg, bars)| {
@@ -365,6 +370,7 @@ pub fn run(ctx: &Ctx) -> CheckResult {
                 jobs.push((Cfg::p2(Kind::SlowStoch, n, 3), b, n, k, devs, false));
                 jobs.push((Cfg::p1(Kind::FastStoch, n), b, n, k, devs, true));
                 jobs.push((Cfg::p2(Kind::SlowStoch, n, 3), b, n, k, devs, true));
+                jobs.push((Cfg::p1(Kind::Er, n), b, n, k, devs, true));
                 if k <= 2 || n <= 10 {
                     jobs.push((Cfg::p1(Kind::Mfi, n), b, n, k, devs, true));
                 }
